@@ -180,6 +180,12 @@ def gen_case(rng):
         else:
             ls, rs = ['zz'], None
             tag = 'err-missing-column'
+    if rng.random() < 0.03:      # an operand without any column: dictable()
+        if rng.random() < 0.5:
+            x = []
+        else:
+            y = []
+        tag += '-nocolumns'
     sp = spelling(rng, ls, rs, op_ok=(ls is None and rs is None and mode in ('mN', 'mlS')))
     return op + '-' + tag, line(op, x, y, ls, rs, mode, sp)
 
